@@ -1819,8 +1819,11 @@ sexp sexp_expt_op (sexp ctx, sexp self, sexp_sint_t n, sexp x, sexp e) {
   sexp_gc_var1(tmp);
 #endif
 #if SEXP_USE_COMPLEX
-  if (sexp_complexp(x) || sexp_complexp(e))
+  if (sexp_complexp(x) || sexp_complexp(e)) {
+    if (!sexp_numberp(x)) return sexp_type_exception(ctx, self, SEXP_NUMBER, x);
+    if (!sexp_numberp(e)) return sexp_type_exception(ctx, self, SEXP_NUMBER, e);
     return sexp_complex_expt(ctx, x, e);
+  }
 #endif
 #if SEXP_USE_BIGNUMS
   if (sexp_bignump(e)) {        /* bignum exponent needs special handling */
